@@ -46,6 +46,12 @@ pub enum Fault {
     PartialClose(u8),
     /// the port stays closed for 6.5 s: two connection attempts in a row are refused
     LongRefuse,
+    /// the port stays closed for 16.5 s: four attempts in a row are refused (each must still be followed by a pause)
+    VeryLongRefuse,
+    /// 3000 connections accepted and closed at once (the decoder reconnects immediately each time)
+    ManyCloses,
+    /// not a fault: the decoder is started with `-t localhost:<port>` instead of the numeric address
+    UseHostName,
     /// accept, deliver a frame, keep the connection open for 5.5 s, then close (a feed that ran for a while)
     HoldFrames,
 }
@@ -155,7 +161,10 @@ pub fn check(seq: &[Fault], case_id: u64) -> Result<Outcome, String> {
     };
     l.set_nonblocking(true).map_err(|e| e.to_string())?;
     let mut peer = Peer { port, listener: Some(l) };
-    let starts_refused = matches!(seq.first(), Some(Fault::Refuse) | Some(Fault::LongRefuse));
+    let use_host = seq.contains(&Fault::UseHostName);
+    let seq: Vec<Fault> = seq.iter().cloned().filter(|f| *f != Fault::UseHostName).collect();
+    let seq = &seq[..];
+    let starts_refused = matches!(seq.first(), Some(Fault::Refuse) | Some(Fault::LongRefuse) | Some(Fault::VeryLongRefuse));
     if starts_refused {
         peer.close();
     }
@@ -170,7 +179,7 @@ pub fn check(seq: &[Fault], case_id: u64) -> Result<Outcome, String> {
         extra.push(dlog.to_string_lossy().to_string());
     }
     let mut child: Child = Command::new(cli::cli_path(true))
-        .args(["-t", &format!("127.0.0.1:{}", port), "--update=-1", "-i", "x", "-d", "100000"])
+        .args(["-t", &format!("{}:{}", if use_host { "localhost" } else { "127.0.0.1" }, port), "--update=-1", "-i", "x", "-d", "100000"])
         .args(&extra)
         .stdin(Stdio::null())
         .stdout(Stdio::from(outfile))
@@ -205,11 +214,11 @@ fn drive(seq: &[Fault], peer: &mut Peer, child: &mut Child, outpath: &std::path:
     let steps: Vec<Option<Fault>> = seq.iter().map(|f| Some(*f)).chain(std::iter::once(None)).collect();
     while i < steps.len() {
         let step = steps[i];
-        if step == Some(Fault::Refuse) || step == Some(Fault::LongRefuse) {
+        if matches!(step, Some(Fault::Refuse) | Some(Fault::LongRefuse) | Some(Fault::VeryLongRefuse)) {
             // the port is closed already (closed before the previous connection ended, or before start)
             disruptive += 1;
             if !learned.is_empty() { learned_before_disruption = learned.len(); }
-            std::thread::sleep(Duration::from_millis(if step == Some(Fault::LongRefuse) { 6500 } else { 1500 }));
+            std::thread::sleep(Duration::from_millis(match step { Some(Fault::LongRefuse) => 6500, Some(Fault::VeryLongRefuse) => 16_500, _ => 1500 }));
             alive(child, "while its connection attempts were being refused")?;
             peer.open().map_err(|e| format!("harness: cannot re-open the port: {}", e))?;
             i += 1;
@@ -224,6 +233,10 @@ fn drive(seq: &[Fault], peer: &mut Peer, child: &mut Child, outpath: &std::path:
         if let Some(t0) = refused_at.take() {
             let waited = t0.elapsed().as_secs_f64();
             let long = i > 0 && steps[i - 1] == Some(Fault::LongRefuse);
+            let very_long = i > 0 && steps[i - 1] == Some(Fault::VeryLongRefuse);
+            if very_long && waited < 19.5 {
+                return Err(format!("the port was closed for 16.5 s (four refused attempts) but the next connection arrived after {:.2} s: a ~5 s pause after each failed attempt is missing", waited));
+            }
             if long && waited < 9.5 {
                 return Err(format!("the port was closed for 6.5 s (two refused attempts) but the next connection arrived after {:.2} s: a ~5 s pause after each failed attempt is missing", waited));
             }
@@ -232,7 +245,7 @@ fn drive(seq: &[Fault], peer: &mut Peer, child: &mut Child, outpath: &std::path:
             }
         }
         alive(child, "after connecting")?;
-        let next_is_refuse = matches!(steps.get(i + 1).copied().flatten(), Some(Fault::Refuse) | Some(Fault::LongRefuse));
+        let next_is_refuse = matches!(steps.get(i + 1).copied().flatten(), Some(Fault::Refuse) | Some(Fault::LongRefuse) | Some(Fault::VeryLongRefuse));
         match step {
             Some(Fault::AcceptClose) => {
                 if next_is_refuse { peer.close(); refused_at = Some(Instant::now()); }
@@ -250,6 +263,21 @@ fn drive(seq: &[Fault], peer: &mut Peer, child: &mut Child, outpath: &std::path:
                 learned.push(a);
                 if next_is_refuse { peer.close(); refused_at = Some(Instant::now()); }
                 drop(conn);
+            }
+            Some(Fault::ManyCloses) => {
+                drop(conn);
+                for n in 0..3000 {
+                    match peer.accept(Duration::from_secs(30)) {
+                        Some(s) => drop(s),
+                        None => {
+                            alive(child, &format!("after {} connections that the peer closed at once", n))?;
+                            return Ok(Outcome::Inconclusive("no reconnect within 30 s during the many-closes step".into()));
+                        }
+                    }
+                    if n % 250 == 0 {
+                        alive(child, &format!("after {} connections that the peer closed at once", n))?;
+                    }
+                }
             }
             Some(Fault::HoldFrames) => {
                 let (a, lines) = new_aircraft(k);
@@ -317,7 +345,7 @@ fn drive(seq: &[Fault], peer: &mut Peer, child: &mut Child, outpath: &std::path:
                 learned.push(a);
                 drop(conn);
             }
-            Some(Fault::Refuse) | Some(Fault::LongRefuse) => unreachable!(),
+            Some(Fault::Refuse) | Some(Fault::LongRefuse) | Some(Fault::VeryLongRefuse) | Some(Fault::UseHostName) => unreachable!(),
             None => {
                 // healthy connection: new aircraft, stays open
                 let (a, lines) = new_aircraft(k);
@@ -388,6 +416,9 @@ fn sequences(c: &mut Ctx) -> Vec<Vec<Fault>> {
     // feeds that ran for a while before the interruption, and two refused attempts in a row
     v.push(vec![Fault::HoldFrames, Fault::Refuse]);
     v.push(vec![Fault::LongRefuse]);
+    v.push(vec![Fault::FramesClose, Fault::VeryLongRefuse]);
+    v.push(vec![Fault::FramesClose, Fault::ManyCloses, Fault::FramesClose]);
+    v.push(vec![Fault::UseHostName, Fault::FramesClose, Fault::Refuse]);
     v.push(vec![Fault::PartialClose(14)]);
     v.push(vec![Fault::PartialClose(27), Fault::FramesClose]);
     v.push(vec![Fault::FramesClose, Fault::PartialClose(28)]);
